@@ -274,6 +274,34 @@ for d, observer, other_run in [(d_, o_, r_) for d_ in range(0, 4 if THOROUGH els
                            f"error={o.get('err')!r} warnings={o.get('w')}")
     elif any(n in o["vis"] for n in ("from_thread_run", "_send_message_to_trio", "run_system", "unprotected_afn")):
         leg.violation(key, f"from_thread plumbing not hidden: {o['vis']}")
+# a task whose to_thread.run_sync call is still QUEUED on the thread limiter (no worker thread yet) is an ordinary state: its stack
+# ends at the wait, silently - no warning, no error
+def queued_thread_scenario():
+    out = {}
+    gate = threading.Event()
+    async def main():
+        lim = trio.CapacityLimiter(1)
+        async def job(tag):
+            await trio.to_thread.run_sync(gate.wait, limiter=lim)
+        async with trio.open_nursery() as n:
+            n.start_soon(job, "first"); n.start_soon(job, "second")
+            await trio.testing.wait_all_tasks_blocked()
+            tasks = list(n.child_tasks)
+            with warnings.catch_warnings(record=True) as w:
+                warnings.simplefilter("always")
+                sts = [stackscope.extract(t_) for t_ in tasks]
+            out["w"] = [str(x.message)[:100] for x in w]
+            out["err"] = [s_.error for s_ in sts]
+            out["n"] = [len(s_.frames) for s_ in sts]
+            gate.set()
+    trio.run(main)
+    return out
+leg.case("to_thread-queued-on-limiter", True)
+oq = queued_thread_scenario()
+if oq.get("w") or any(e is not None for e in oq.get("err", [1])) or not all(oq.get("n", [0])):
+    leg.violation("to_thread-queued-on-limiter", f"two tasks in to_thread.run_sync behind a one-token limiter (one running, one queued): warnings {oq.get('w')}, "
+                                                 f"errors {oq.get('err')}, frame counts {oq.get('n')}")
+
 # the FIRST extraction of a process decides when the Trio glue is installed: made from inside trio.run() but outside any task
 # (an Instrument hook - the situation of a signal-driven stack dump), the task tree extracted then and later must still be Trio's
 import subprocess
